@@ -1270,3 +1270,124 @@ def rule_elementwise(rep, pdb, fn, container_param=0, key="elementwise"):
             ok_s = g
             det.append("len=%s" % g)
         rep.add("%s-shape/%s" % (key, path), "the fresh result has the dimensions of the container operand", ok_s, e.node, " ".join(det))
+
+
+# ---------------------------------------------------------------- W: termination shape, call graph
+
+def local_callees(pdb, fn):
+    out = []
+    for n in walk(fn["body"]):
+        if is_call_like(n) and not in_macro(n):
+            p = callee_path(n)
+            cf = pdb.fn(p) if p else None
+            if cf is not None and cf["kind"] in ("Fn", "AssocFn"):
+                out.append((cf, n))
+    return out
+
+
+def reachable_fns(pdb, fn):
+    """All local fns reachable from fn (including fn), and whether the reachable call graph has a cycle."""
+    seen = {}
+    cyc = []
+    stack = []
+
+    def dfs(f):
+        p = f["path"]
+        if p in stack:
+            cyc.append(list(stack[stack.index(p):]) + [p])
+            return
+        if p in seen:
+            return
+        seen[p] = f
+        stack.append(p)
+        for cf, _ in local_callees(pdb, f):
+            dfs(cf)
+        stack.pop()
+    dfs(fn)
+    return seen, cyc
+
+
+def loops_of(fn):
+    return [n for n in walk(fn["body"]) if n.get("k") in ("For", "While", "Loop") and not in_macro(n)]
+
+
+def loop_is_bounded_for(ctx, lp):
+    """A `for` over a range (or a by-value/by-ref iteration of a collection) whose bounds are not written in the body."""
+    if lp.get("k") != "For":
+        return False, "not a for loop"
+    r = for_range(ctx, lp)
+    if r is None:
+        it = strip(lp["iter"])
+        # iteration over a collection / drain / iter(): finite by construction
+        return True, "iterates a collection (%s)" % it.get("k")
+    v, lo, hi, incl, rev = r
+    # bounds must not depend on something written inside the loop body
+    from .guards import term_roots
+    roots = term_roots(lo) | term_roots(hi)
+    for root in roots:
+        for (path, mode), node in ctx.mutations.get(root, []):
+            if any(a is lp for a in ancestors(node)):
+                # element writes do not change integer bounds unless the bound reads an element
+                if mode == "elem" and not _reads_elem(lo, root) and not _reads_elem(hi, root):
+                    continue
+                if path and not _mentions_place(hi, project(root, path)) and not _mentions_place(lo, project(root, path)) and mode == "replace":
+                    continue
+                return False, "bound %s may change inside the loop" % show(hi, ctx)
+    return True, "%s..%s" % (show(lo, ctx), show(hi, ctx))
+
+
+def _reads_elem(t, root):
+    from .guards import _mentions, term_roots
+    return _mentions(t, lambda x: x[0] == "idx" and root in term_roots(x[1]))
+
+
+def _mentions_place(t, place):
+    from .guards import _mentions
+    return _mentions(t, lambda x: x == place)
+
+
+def rule_termination(rep, pdb, fn, key, allow_while=None):
+    """W: every loop of fn and of everything it can reach is a bounded `for`; the reachable call graph is acyclic.
+    allow_while: {fn_path: checker(ctx, loop) -> (ok, detail)} for the listed counter-bounded while loops."""
+    seen, cyc = reachable_fns(pdb, fn)
+    n_loops = 0
+    bad = []
+    for p, f in seen.items():
+        ctx = Ctx.for_fn(pdb, f)
+        for lp in loops_of(f):
+            n_loops += 1
+            if lp.get("k") == "For":
+                ok, det = loop_is_bounded_for(ctx, lp)
+            elif allow_while and p in allow_while:
+                ok, det = allow_while[p](ctx, lp)
+            else:
+                ok, det = False, "%s loop" % lp.get("k")
+            if not ok:
+                bad.append("%s at %s: %s" % (p, loc(lp), det))
+    rule = "every loop reachable from the entry point is a `for` over a loop-invariant range (or a listed counter-bounded while); the reachable call graph is acyclic"
+    rep.add(key, rule, not bad and not cyc, fn["body"], "reachable fns=%d loops=%d %s%s" % (
+        len(seen), n_loops, ("unbounded: %s" % bad) if bad else "", (" cycles: %s" % cyc) if cyc else ""),
+        where="%s:%d" % (fn["file"], fn["span"][0]))
+    return len(seen), n_loops
+
+
+DENY_PREFIX = ("rand::", "std::time", "std::fs", "std::env", "std::thread", "num_cpus", "std::sync", "std::cell", "std::io::stdin",
+               "std::net", "std::process", "core::cell", "core::sync")
+
+
+def rule_no_hidden_state(rep, pdb, fn, key, allow=()):
+    """The fn and everything reachable reads no static, thread-local, clock, RNG, file or environment."""
+    seen, _ = reachable_fns(pdb, fn)
+    bad = []
+    for p, f in seen.items():
+        for n in walk(f["body"]):
+            if n.get("k") == "Def" and str(n.get("dk", "")).startswith("Static"):
+                bad.append("%s reads static %s" % (p, n.get("fn")))
+            if is_call_like(n):
+                cp = callee_path(n) or ""
+                g = callee_generic(n) or ""
+                for d in DENY_PREFIX:
+                    if (cp.startswith(d) or g.startswith(d)) and not any(cp.startswith(a) for a in allow):
+                        bad.append("%s calls %s" % (p, cp))
+    rule = "the entry point and its local callees read no statics, thread-locals, clocks, RNG, files, environment or thread state"
+    rep.add(key, rule, not bad, fn["body"], "reachable fns=%d %s" % (len(seen), bad[:4]), where="%s:%d" % (fn["file"], fn["span"][0]))
